@@ -37,6 +37,8 @@ import (
 	"regexp"
 	"strconv"
 	"strings"
+	"unicode"
+	"unicode/utf8"
 
 	"golang.org/x/net/html"
 
@@ -1079,34 +1081,69 @@ func isDataAttribute(val string) bool {
 }
 
 func removeUnicode(value string) string {
-	substitutedValue := value
-	currentLoc := cssUnicodeChar.FindStringIndex(substitutedValue)
-	for currentLoc != nil {
-
-		character := substitutedValue[currentLoc[0]+1 : currentLoc[1]]
-		character = strings.TrimSpace(character)
-		if len(character) < 4 {
-			character = strings.Repeat("0", 4-len(character)) + character
-		} else {
-			for len(character) > 4 {
-				if character[0] != '0' {
-					character = ""
-					break
-				} else {
-					character = character[1:]
+	// Decodes the CSS escapes of the value the way a browser's tokenizer does
+	// (CSS Syntax Level 3, "consume an escaped code point"), so that the
+	// matchers judge the value the browser is going to apply
+	if !strings.Contains(value, `\`) {
+		return value
+	}
+	var decoded strings.Builder
+	for i := 0; i < len(value); {
+		if value[i] != '\\' {
+			decoded.WriteByte(value[i])
+			i++
+			continue
+		}
+		i++
+		if i == len(value) {
+			decoded.WriteRune(unicode.ReplacementChar)
+			break
+		}
+		j := i
+		for j < len(value) && j-i < 6 && isHexDigit(value[j]) {
+			j++
+		}
+		if j == i {
+			// Not a hexadecimal escape, the character stands for itself and
+			// an escaped line break is a line continuation
+			r, size := utf8.DecodeRuneInString(value[i:])
+			i += size
+			switch r {
+			case '\n', '\f':
+			case '\r':
+				if i < len(value) && value[i] == '\n' {
+					i++
 				}
+			default:
+				decoded.WriteRune(r)
+			}
+			continue
+		}
+		codePoint, _ := strconv.ParseUint(value[i:j], 16, 32)
+		if codePoint == 0 || codePoint > unicode.MaxRune ||
+			(codePoint >= 0xD800 && codePoint <= 0xDFFF) {
+			codePoint = unicode.ReplacementChar
+		}
+		decoded.WriteRune(rune(codePoint))
+		i = j
+		// A single whitespace after the hexadecimal digits ends the escape
+		if i < len(value) {
+			switch value[i] {
+			case '\r':
+				i++
+				if i < len(value) && value[i] == '\n' {
+					i++
+				}
+			case ' ', '\t', '\n', '\f':
+				i++
 			}
 		}
-		character = "\\u" + character
-		translatedChar, err := strconv.Unquote(`"` + character + `"`)
-		translatedChar = strings.TrimSpace(translatedChar)
-		if err != nil {
-			return ""
-		}
-		substitutedValue = substitutedValue[0:currentLoc[0]] + translatedChar + substitutedValue[currentLoc[1]:]
-		currentLoc = cssUnicodeChar.FindStringIndex(substitutedValue)
 	}
-	return substitutedValue
+	return decoded.String()
+}
+
+func isHexDigit(c byte) bool {
+	return (c >= '0' && c <= '9') || (c >= 'a' && c <= 'f') || (c >= 'A' && c <= 'F')
 }
 
 func (p *Policy) matchRegex(elementName string) (map[string][]attrPolicy, bool) {
